@@ -246,6 +246,7 @@ def plan(tier):
             if mode == "unack" and hname in ("fd_first_cancel", "eof_missing_cancel", "busy_waiting_missing"):
                 continue
             variant = "sibling" if hname.startswith("busy") else "history"
+            n2 = 4 if (q or (mode == "ack" and hname not in ("cancel_request_with_gap", "busy_with_gap", "eof_missing_cancel"))) else 5
             specs.append(Spec(f"dest/{mode}/{variant}/{hname}/N2={n2}", "vf.harness.c11:h_dest",
                               {"N1": hname, "N2": n2, "mode": mode, "variant": variant}, twin_share=0.02,
                               obligations=["history_ended_idle" if variant == "history" else "sibling_busy"]))
